@@ -10,6 +10,7 @@ the blocking reaper and its release.
 -/
 import RqModel.Lemmas.Streamer
 import RqModel.Lemmas.LockFacts
+import RqModel.Gen.SnapshotLock
 namespace C11
 open RqModel.Streamer RqModel.Rsync
 
@@ -137,6 +138,29 @@ theorem lock_discipline :
     RqModel.LockFacts.wholeBody "internal/rsync.MultiRSW.BeginWrite" = true ∧
     RqModel.LockFacts.wholeBody "internal/rsync.MultiRSW.BeginWriteBlocking" ["if"] true = true ∧
     RqModel.LockFacts.wholeBody "internal/rsync.MultiRSW.EndWrite" = true := by decide
+
+/-- **Where the store takes and hands over the lock** (regenerated from snapshot/store.go):
+`Reap` takes the write lock first and defers its release; `reapLoop` brackets `s.reap()` with
+the blocking write lock; `reap`/`reapInternal` are called from nowhere else; `Open` takes the
+read lock first, gives it back only on its error path, and its success return hands it to a
+`LockingStreamer` (the model's `open_` step). -/
+theorem lock_brackets :
+    RqModel.Gen.SnapshotLock.reapTakesWriteLockFirstAndDefersRelease = true ∧
+    RqModel.Gen.SnapshotLock.reapLoopBracketsReapWithBlockingWriteLock = true ∧
+    RqModel.Gen.SnapshotLock.reapCallers = ["Reap->reap", "reap->reapInternal", "reapLoop->reap"] ∧
+    RqModel.Gen.SnapshotLock.openTakesReadLockFirst = true ∧
+    RqModel.Gen.SnapshotLock.openReleasesReadLockOnlyOnError = true ∧
+    RqModel.Gen.SnapshotLock.openHandsLockToLockingStreamer = true := by decide
+
+/-- Readers are refused, not queued, while a reap holds the lock: `Open`, `ListAll`, `Len`,
+`Stats` use the non-blocking `BeginRead`. Exclusion is preserved (this is what
+`reap_excludes_streams` needs); the cost is availability — e.g. raft.NewRaft's
+`snapshots.List()/Open()` right after a recovery can fail once while the background reaper
+runs. Not a violation of the property as written. -/
+theorem readers_refused_during_reap (steps : List Step) (h : (run {} steps).reaping = 1) :
+    ((run {} steps).m.beginRead).2 = .conflict ∧ (run {} steps).m.readEnabled = false := by
+  have hown := (inv steps).owner.2 h
+  simp [Mrsw.beginRead, Mrsw.readEnabled, hown]
 
 /-! ### non-vacuity: Close racing with the idle callback, then the reaper gets in -/
 example :
